@@ -34,8 +34,11 @@ package cty
 //@   let n (Slice.len vals)
 //@   ensures[C06] shape: (and (is_list_ty (vty result)) (wf_ty (vty result)) (plain result) (is_seq_payload result) (= (Slice.len (pl_seq result)) n))
 //@   ensures[C06] elemty: (or (and (is_dyn_ty (elem_ty (vty result))) (vals_all_dyn vals n)) (and (not (is_dyn_ty (elem_ty (vty result)))) (vals_some_ty vals n (elem_ty (vty result)))))
+//@   ensures[C06,C02] content: (forall ((j Int)) (! (=> (and (trig j) (<= 0 j) (< j n)) (= (pl_seq_at result j) (cty.Value.v (vals_rel vals j)))) :pattern ((trig j))))
 //@   loop 1 invariant (or (and (is_dyn_ty elementType) (vals_all_dyn vals $i)) (and (not (is_dyn_ty elementType)) (vals_some_ty vals $i elementType)))
 //@   loop 1 invariant (forall ((j Int)) (! (=> (and (trig j) (<= 0 j) (< j $i) (not (is_dyn_ty (vty (vals_rel vals j))))) (ty_eq elementType (vty (vals_rel vals j)))) :pattern ((trig j))))
+//@   loop 1 invariant (and (< (Slice.ptr rawList) 0) (= (Slice.off rawList) 0) (= (Slice.len rawList) (Slice.len vals)))
+//@   loop 1 invariant (forall ((j Int)) (! (=> (and (trig j) (<= 0 j) (< j $i)) (= (select (select $H<Arr<Any>> (Slice.ptr rawList)) j) (cty.Value.v (vals_rel vals j)))) :pattern ((trig j))))
 //
 //@ func cty.CanListVal
 //@   tags C06
@@ -54,6 +57,9 @@ package cty
 //@   ensures[C06] wfty: (wf_ty (vty result))
 //@   loop 1 invariant (forall ((j Int)) (! (=> (and (trig j) (<= 0 j) (< j $i)) (= (select (select $H<Arr<cty.Type>> (Slice.ptr elemTypes)) j) (vty (vals_rel elems j)))) :pattern ((trig j))))
 //@   loop 1 invariant (and (< (Slice.ptr elemTypes) 0) (= (Slice.off elemTypes) 0) (= (Slice.len elemTypes) (Slice.len elems)))
+//@   ensures[C06,C02] content: (forall ((j Int)) (! (=> (and (trig j) (<= 0 j) (< j n)) (= (pl_seq_at result j) (cty.Value.v (vals_rel elems j)))) :pattern ((trig j))))
+//@   loop 1 invariant (and (< (Slice.ptr elemVals) 0) (= (Slice.off elemVals) 0) (= (Slice.len elemVals) (Slice.len elems)))
+//@   loop 1 invariant (forall ((j Int)) (! (=> (and (trig j) (<= 0 j) (< j $i)) (= (select (select $H<Arr<Any>> (Slice.ptr elemVals)) j) (cty.Value.v (vals_rel elems j)))) :pattern ((trig j))))
 //
 //@ func cty.ListValEmpty
 //@   tags C06
@@ -143,8 +149,28 @@ package cty
 //@   trusted
 //
 //@ func (cty.Value).LengthInt
+//@   tags C02 C13
+//@   requires (wf_deep val)
+//@   let t (vty val)
+//@   panics[C02] (or (is_marked val) (and (not (is_tuple_ty t)) (not (is_obj_ty t)) (or (not (is_known val)) (is_null val) (not (or (is_list_ty t) (is_set_ty t) (is_map_ty t))))))
+//@   ensures[C02] value: (and (<= 0 result) (= result (len_int val)))
+//
+// Number of members of a set payload (the generic set package is not under contract).
+//@ func (set.Set[interface{}]).Length[interface{}]
 //@   trusted
-//@   ensures (and (<= 0 result) (<= result 72057594037927936) (= result (len_int val)))
+//@   ensures (and (<= 0 result) (= result (vset_sz s)))
 //
 //@ global cty.EmptyTupleVal (and (is_tuple_ty (vty $g)) (= (tuple_len (vty $g)) 0) (wf_ty (vty $g)) (plain $g) (is_seq_payload $g) (= (Slice.len (pl_seq $g)) 0) (not (has_opt (vty $g))))
 //@ global cty.EmptyObjectVal (and (is_obj_ty (vty $g)) (= (obj_dom (vty $g)) empty<String>) (= (obj_opt (vty $g)) empty<String>) (wf_ty (vty $g)) (plain $g) (is_map_payload $g) (not (has_opt (vty $g))))
+//
+// AsValueSlice is not under contract (element iterators are not): assumed for known lists and tuples that the
+// result has one value per element, in order, of the element type (list) or of the tuple's element type.
+//@ func (cty.Value).AsValueSlice
+//@   trusted
+//@   requires (wf_deep val)
+//@   let t (vty val)
+//@   panics (or (is_marked val) (not (is_known val)) (is_null val) (not (or (is_list_ty t) (is_tuple_ty t) (is_set_ty t) (is_map_ty t) (is_obj_ty t))))
+//@   ensures (and (slice.ok result) (= (Slice.len result) (len_int val)) (>= (Slice.ptr result) 0) (= (Slice.off result) 0))
+//@   ensures (forall ((k Int)) (! (=> (and (<= (Slice.off result) k) (< k (+ (Slice.off result) (Slice.len result)))) (and (wf_marks (select (vals_arr result) k)) (wf_ty (cty.Value.ty (select (vals_arr result) k))))) :pattern ((select (vals_arr result) k))))
+//@   ensures (=> (is_list_ty t) (forall ((k Int)) (! (=> (and (<= (Slice.off result) k) (< k (+ (Slice.off result) (Slice.len result)))) (= (select (vals_arr result) k) (mk.cty.Value (elem_ty t) (pl_seq_at val (- k (Slice.off result)))))) :pattern ((select (vals_arr result) k)))))
+//@   ensures (=> (is_tuple_ty t) (forall ((k Int)) (! (=> (and (<= (Slice.off result) k) (< k (+ (Slice.off result) (Slice.len result)))) (= (select (vals_arr result) k) (mk.cty.Value (tuple_at t (- k (Slice.off result))) (pl_seq_at val (- k (Slice.off result)))))) :pattern ((select (vals_arr result) k)))))
